@@ -483,6 +483,18 @@ let exec (toks : string list) : string =
     let w = if w = 65 then 64 else if w > 128 then 128 else w in
     (match stable_partition_of_4 (n_of_int w) (List.map n_of_string vs) (n_of_string shift) with
      | Val l -> join (List.map sn l) | Fault e -> fault_s e)
+  | "FN" :: "part2" :: w :: shift :: vs ->
+    let w = int_of_string w in
+    let w = if w = 65 then 64 else if w > 128 then 128 else w in
+    (match stable_partition_of_2 (n_of_int w) (List.map n_of_string vs) (n_of_string shift) with
+     | Val l -> join (List.map sn l) | Fault e -> fault_s e)
+  | "FN" :: "remap" :: vs ->
+    let input = List.map n_of_string vs in
+    (* the hash set's iteration order is unknown: use the reverse order of first occurrence *)
+    let uniq = List.fold_left (fun acc x -> if List.exists (fun y -> N.eqb x y) acc then acc else x :: acc) [] input in
+    (match text_remap uniq input with
+     | Val (out, d) -> "V" ^ sn d ^ ";" ^ join (List.map sn out)
+     | Fault e -> fault_s e)
   | _ -> "-"
 
 let () =
